@@ -27,7 +27,7 @@ theorem reach_full (cfg : Config) : ∀ s, Reach (sys cfg) s → Reach (Cancella
 /-- `safe` with the deadlock clause taken for the restricted system -/
 def safe (cfg : Config) (s : St) : Bool :=
   s.bad = 0 && s.completions ≤ 1 && s.tcTrue ≤ 1 && s.hookRuns ≤ 1 && s.nestedStarts ≤ 1 &&
-  !s.startAfterHook && (s.doneWins = 0 || s.hookRuns = 1) &&
+  !s.startAfterHook && !s.hookLate && (s.doneWins = 0 || s.hookRuns = 1) &&
   ((sys cfg).next s |>.isEmpty |> fun dead => !dead || final cfg s) &&
   (!final cfg s || (s.completions = 1 && s.freed))
 
